@@ -4,10 +4,14 @@ Implementation side: a REAL BGPPeering/FSM/BGP on the simulated reactor (session
 afi_safi ipv4+flowspec+vpnv4) is brought to Established; UPDATE byte strings built with yabgp's own
 Update.construct go in through dataReceived; the send side is driven through
 update_rib_out_ipv4/update_send_version and through the Flask test client of yabgp.api.app;
-connections are dropped (connectionLost) and re-established (new BGP object).
+sessions end in BOTH ways -- the peer drops the connection (connectionLost with disconnected False), or
+yabgp closes it itself (header error -> NOTIFICATION -> closeConnection, hold timer expiry, manual stop,
+NOTIFICATION from the peer; then connectionLost with disconnected True) -- and are re-established (new
+BGP object).  UPDATEs carry every combination of {IPv4 NLRI, IPv4 withdrawals, MP_REACH_NLRI (14),
+MP_UNREACH_NLRI (15)}, 14 and 15 of the same or of different families, on both directions.
 
 After EVERY event the observable state (adj_rib_in['ipv4'], adj_rib_out['ipv4'], receive_version,
-send_version, the six flowspec/sr/mpls_vpn dictionaries, in dictionary order) is compared
+send_version, the six flowspec/sr/mpls_vpn dictionaries, in dictionary order, the disconnected flag) is compared
   (1) with the Coq model coq/model/YRib.v, evaluated by vm_compute (correspondence), and
   (2) with a plain-Python dictionary oracle written from the property text (no model involved).
 """
@@ -71,6 +75,9 @@ VPN_ROUTES = [
     {'label': [29], 'rd': '2:2', 'prefix': '192.168.201.0/24'},
     {'rd': '2:2', 'prefix': '192.168.202.0/24', 'label': [30]},
     {'label': [31], 'rd': '3:3', 'prefix': '192.168.201.0/24'},
+    # label 0x80000 = the value a VPNv4 withdrawal parses to: the only received route whose withdrawal has
+    # the same key string, i.e. the only one the received MP_UNREACH_NLRI branch can actually remove
+    {'label': [524288], 'rd': '4:4', 'prefix': '192.168.204.0/24'},
 ]
 VPN_ATTRS = [
     {1: 2, 2: [], 5: 100, 16: [[2, '2:2']]},
@@ -188,7 +195,8 @@ class Render(object):
                 vers(p.receive_version), vers(p.send_version),
                 rtable('send', p.flowspec_send_dict), rtable('recv', p.flowspec_receive_dict),
                 rtable('send', p.sr_send_dict), rtable('recv', p.sr_receive_dict),
-                rtable('send', p.mpls_vpn_send_dict), rtable('recv', p.mpls_vpn_receive_dict)]
+                rtable('send', p.mpls_vpn_send_dict), rtable('recv', p.mpls_vpn_receive_dict),
+                int(bool(p.disconnected))]
 
     # Coq terms of the model's inputs
     def coq_mp(self, m):
@@ -211,7 +219,12 @@ class Render(object):
 # events
 #   ('recv', logical message dict)   -> Update.construct -> dataReceived
 #   ('send', message dict)           -> update_rib_out_ipv4 + update_send_version, or the REST view
-#   ('drop',)                        -> connectionLost, look at the old object, then re-establish
+#   ('drop',)                        -> the PEER drops the connection: connectionLost, look at the old object,
+#                                       then re-establish
+#   ('close', kind)                  -> YABGP closes the session (closeConnection sets `disconnected`), look at
+#                                       the object, then connectionLost, look again, then re-establish.
+#                                       kind: 'hdr' (bad marker -> NOTIFICATION -> close), 'hold' (hold timer
+#                                       expires), 'stop' (manual stop), 'notif' (NOTIFICATION from the peer)
 # ------------------------------------------------------------------------------------------
 def m_ann(ps, a):
     return {'attr': dict(ATTRS[a]), 'nlri': [PREFIXES[p] for p in ps], 'withdraw': []}
@@ -272,6 +285,90 @@ def s_mp_wd(safi, rules):
             'nlri': [], 'withdraw': []}
 
 
+CLOSE_KINDS = ('hdr', 'hold', 'stop', 'notif')
+DROPS = [('drop',)] + [('close', k) for k in CLOSE_KINDS]
+
+
+def m_combo(nl, wd, f14, f15, a=0):
+    """received UPDATE with any subset of {IPv4 NLRI, IPv4 withdrawals, MP_REACH_NLRI, MP_UNREACH_NLRI}.
+    nl/wd: prefix indices; f14/f15: None or (safi, [pool indices])"""
+    at = {}
+    if f14:
+        at = dict((FS_ATTRS if f14[0] == 133 else VPN_ATTRS)[a])
+        pool = FS_RULES if f14[0] == 133 else VPN_ROUTES
+        at[14] = {'afi_safi': (1, f14[0]), 'nexthop': '' if f14[0] == 133 else dict(VPN_NH),
+                  'nlri': [dict(pool[i]) for i in f14[1]]}
+        if nl:
+            at[3] = '10.0.0.2'
+    elif nl:
+        at = dict(ATTRS[a])
+    if f15:
+        pool = FS_RULES if f15[0] == 133 else VPN_ROUTES
+        at[15] = {'afi_safi': (1, f15[0]), 'withdraw': [dict(pool[i]) for i in f15[1]]}
+    return {'attr': at, 'nlri': [PREFIXES[i] for i in nl], 'withdraw': [PREFIXES[i] for i in wd]}
+
+
+S_POOL = {133: FS_RULES, 128: VPN_ROUTES, 73: SR_RULES}
+S_NH = {133: '', 128: VPN_NH, 73: '10.0.0.1'}
+
+
+def s_combo(nl, wd, f14, f15, a=0):
+    """the same for the send side (JSON shapes: lists, string keys; sr_policy: ONE dictionary)"""
+    at = {}
+    if f14:
+        at = dict(S_FS_ATTRS[a])
+        rules = [jsonable_rule(S_POOL[f14[0]][i]) for i in f14[1]]
+        at[14] = {'afi_safi': [1, f14[0]], 'nexthop': S_NH[f14[0]], 'nlri': rules[0] if f14[0] == 73 else rules}
+        if nl:
+            at[3] = '10.0.0.1'
+    elif nl:
+        at = dict(S_ATTRS[a])
+    if f15:
+        rules = [jsonable_rule(S_POOL[f15[0]][i]) for i in f15[1]]
+        at[15] = {'afi_safi': [1, f15[0]], 'withdraw': rules[0] if f15[0] == 73 else rules}
+    return {'attr': at, 'nlri': [PREFIXES[i] for i in nl], 'withdraw': [PREFIXES[i] for i in wd]}
+
+
+# "A" = the route the set-up announces, "B" = another one.  Received VPNv4: A is the route with the wire
+# withdrawal's label (its withdrawal really removes it), so that the 15 branch is observable there too.
+R14 = [None, (133, [1]), (133, [0]), (128, [1])]                  # none, flowspec B, flowspec A, VPNv4 B
+R15 = [None, (133, [0]), (128, [3])]                              # none, flowspec A, VPNv4 A
+S14 = [None, (133, [1]), (133, [0]), (128, [1]), (73, [0])]       # ... and sr_policy A
+S15 = [None, (133, [0]), (128, [0]), (73, [0])]
+
+
+def combo_letters(side):
+    """all 16 subsets of {nlri, withdraw, 14, 15} x the family choices of 14 and 15 (same family: replace rule A
+    by rule B, or announce and withdraw A, in ONE message; different families: one table each)"""
+    mk, l14, l15 = (m_combo, R14, R15) if side == 'recv' else (s_combo, S14, S15)
+    out = []
+    for nl in ([], [0]):
+        for wd in ([], [1]):
+            for f14 in l14:
+                for f15 in l15:
+                    out.append((side, mk(nl, wd, f14, f15)))
+    return out
+
+
+def combo_setup(side):
+    """every table the combinations touch is non-empty: flowspec A, VPNv4 A (sent: sr_policy A too), prefix 1"""
+    if side == 'recv':
+        return [('recv', m_combo([], [], (133, [0]), None)), ('recv', m_combo([], [], (128, [3]), None)),
+                ('recv', m_combo([1], [], None, None, 1))]
+    return [('send', s_combo([], [], (133, [0]), None)), ('send', s_combo([], [], (128, [0]), None)),
+            ('send', s_combo([], [], (73, [0]), None)), ('send', s_combo([1], [], None, None, 1))]
+
+
+def combo_followups(side):
+    """what shows afterwards whether the combined message was fully accounted: withdrawing A again must be a
+    no-op exactly when the message withdrew it"""
+    if side == 'recv':
+        return [('recv', m_combo([], [], None, (133, [0]))), ('recv', m_combo([], [], None, (128, [3]))),
+                ('recv', m_combo([], [0, 1], None, None))]
+    return [('send', s_combo([], [], None, (133, [0]))), ('send', s_combo([], [], None, (128, [0]))),
+            ('send', s_combo([], [], None, (73, [0]))), ('send', s_combo([], [0, 1], None, None))]
+
+
 def recv_alphabet(big):
     al = [('recv', m_ann([0], 0)), ('recv', m_ann([0], 1)), ('recv', m_ann([1], 0)),
           ('recv', m_wd([0])), ('recv', m_wd([1])),
@@ -284,7 +381,14 @@ def recv_alphabet(big):
         al += [('recv', m_ann([2, 3], 1)), ('recv', m_wd([0, 0, 2])), ('recv', m_wd_ann([1], [0, 2], 1)),
                ('recv', m_fs_ann([1, 2, 1], 0)), ('recv', m_fs_ann([2], 2)), ('recv', m_fs_wd([2, 1, 2])),
                ('recv', m_vpn_ann([1, 2], 1)), ('recv', m_vpn_ann([0], 2)), ('recv', m_vpn_wd([1, 2])),
-               ('recv', m_ann([3], 0)), ('recv', m_wd([3]))]
+               ('recv', m_ann([3], 0)), ('recv', m_wd([3])),
+               ('recv', m_vpn_ann([3], 0)), ('recv', m_vpn_wd([3])),
+               ('recv', m_combo([], [], (133, [1]), (133, [0]))),          # replace flowspec 0 by 1
+               ('recv', m_combo([2], [0], (133, [0, 2]), (133, [1, 0]), 1)),
+               ('recv', m_combo([], [], (128, [1]), (128, [3]))),
+               ('recv', m_combo([0], [], (128, [3]), (133, [0]), 2)),
+               ('recv', m_combo([], [1], (133, [1]), (128, [3, 0]), 2))]
+        al += [('close', k) for k in CLOSE_KINDS]
     return al
 
 
@@ -303,7 +407,14 @@ def send_alphabet(big):
                ('send', s_mp_ann(128, [VPN_ROUTES[1], VPN_ROUTES[2]], 1, VPN_NH)),
                ('send', s_mp_wd(128, [VPN_ROUTES[1]])),
                ('send', s_mp_ann(73, [SR_RULES[0]], 0, '10.0.0.1')), ('send', s_mp_ann(73, [SR_RULES[0]], 1, '10.0.0.1')),
-               ('send', s_mp_ann(73, [SR_RULES[1]], 0, '10.0.0.1')), ('send', s_mp_wd(73, [SR_RULES[0]]))]
+               ('send', s_mp_ann(73, [SR_RULES[1]], 0, '10.0.0.1')), ('send', s_mp_wd(73, [SR_RULES[0]])),
+               ('send', s_combo([], [], (133, [1]), (133, [0]))),
+               ('send', s_combo([2], [0], (133, [0, 2]), (133, [1, 0]), 1)),
+               ('send', s_combo([], [], (128, [1]), (128, [0]))),
+               ('send', s_combo([0], [], (128, [0]), (133, [0]), 2)),
+               ('send', s_combo([], [1], (73, [1]), (73, [0]), 2)),
+               ('send', s_combo([], [], (133, [1]), (73, [0]), 1))]
+        al += [('close', k) for k in CLOSE_KINDS]
     return al
 
 
@@ -416,7 +527,35 @@ class Runner(object):
                 if d.enabled(('fire', n)):
                     self.do(('fire', n))
                     break
+            else:
+                self.do(('start',))            # after a manual stop nothing restarts by itself
         self.establish()
+
+    def local_close(self, kind):
+        """make yabgp close the Established session itself (FSM -> BGP.closeConnection); the transport has NOT
+        reported the loss yet"""
+        d = self.d
+        p = self.proto
+        if kind == 'hdr':
+            self.do(('data', self.cid, self.msgs['bad_marker']))
+        elif kind == 'notif':
+            self.do(('data', self.cid, self.msgs['notif_cease']))
+        elif kind == 'stop':
+            self.do(('stop',))
+        elif kind == 'hold':
+            for _ in range(12):
+                if d.enabled(('fire', 'THold')):
+                    self.do(('fire', 'THold'))
+                    break
+                for n, _a in session.TIMER_ATTR:
+                    if n != 'THold' and d.enabled(('fire', n)):
+                        self.do(('fire', n))
+                        break
+        else:
+            raise ValueError(kind)
+        c = d.sim.connectors[self.cid]
+        if not (c.state == 'connected' and c.transport.disconnecting and self.proto is p):
+            raise AssertionError('generator: %r did not make yabgp close the connection' % (kind,))
 
     def fresh(self):
         """every trace starts on a new connection"""
@@ -456,6 +595,7 @@ class Runner(object):
                     raise AssertionError('generator: the UPDATE does not carry the intended routes %r' % (e,))
                 before = {f: self.abs_mp('recv', getattr(p, t)) for f, t in
                           (('flowspec', 'flowspec_receive_dict'), ('mpls_vpn', 'mpls_vpn_receive_dict'))}
+                vpnkeys = set(p.mpls_vpn_receive_dict)
                 vbefore = dict(p.receive_version)
                 sendbefore = dict(p.send_version)
                 exc0 = self.d.exc
@@ -477,7 +617,7 @@ class Runner(object):
                     dv = p.receive_version[fam] - vbefore[fam]
                     if got != exp or dv != n:
                         known = None
-                        if fam == 'mpls_vpn' and self.is_vpn_label_case(before[fam], msg['attr'], got, dv):
+                        if fam == 'mpls_vpn' and self.is_vpn_label_case(before[fam], vpnkeys, msg['attr'], got, dv):
                             known = KNOWN_VPN
                         viol.append({'what': 'received %s: counter moved by %d for %d table changes; table %s'
                                      % (fam, dv, n, 'as expected' if got == exp else 'differs'),
@@ -528,12 +668,20 @@ class Runner(object):
                     bad('receive_version moved by a sent UPDATE', i)
             else:
                 old = p
+                if e[0] == 'close':
+                    who = 'closed by yabgp itself: %s' % e[1]
+                    self.local_close(e[1])
+                    coq.append('EClose')
+                    states.append(R.state(old))
+                    if not old.disconnected:
+                        bad('closeConnection did not mark the protocol object as disconnected (%s)' % e[1], i)
+                else:
+                    who = 'dropped by the peer'
                 self.do(('lost', self.cid))
                 coq.append('ELost')
                 states.append(R.state(old))
-                if old.adj_rib_in['ipv4'] or old.adj_rib_out['ipv4'] or \
-                        any(v for v in old.adj_rib_in.values()) or any(v for v in old.adj_rib_out.values()):
-                    bad('Adj-RIB not empty after the session dropped', i)
+                if any(v for v in old.adj_rib_in.values()) or any(v for v in old.adj_rib_out.values()):
+                    bad('Adj-RIB not empty after the session dropped (%s)' % who, i)
                 self.reconnect()
                 p = self.proto
                 coq.append('ENew')
@@ -543,7 +691,7 @@ class Runner(object):
                 if any(v for v in p.adj_rib_in.values()) or any(v for v in p.adj_rib_out.values()) or \
                         any(p.receive_version.values()) or any(p.send_version.values()) or \
                         p.flowspec_receive_dict or p.mpls_vpn_receive_dict or p.flowspec_send_dict or \
-                        p.mpls_vpn_send_dict or p.sr_send_dict:
+                        p.mpls_vpn_send_dict or p.sr_send_dict or p.disconnected:
                     bad('tables/counters of the new connection are not empty/zero', i)
             states.append(R.state(self.proto))
         return coq, states, viol
@@ -561,12 +709,21 @@ class Runner(object):
         return out
 
     @staticmethod
-    def is_vpn_label_case(before, attr, got, dv):
-        """known class: the message withdraws VPNv4 routes that are present; observed: table and counter
-        exactly as if those withdrawals were not there"""
+    def is_vpn_label_case(before, rawkeys, attr, got, dv):
+        """known class: the message withdraws VPNv4 routes that are present under a key string with ANOTHER
+        label than the withdrawal's (always 0x800000 on the wire); observed: table and counter exactly as if
+        those withdrawals were not there.  A withdrawal whose own key string is in the dictionary (same label)
+        is outside the class: it must be applied and counted."""
         if 15 not in attr or tuple(attr[15]['afi_safi']) != (1, 128):
             return False
-        a2 = {k: v for k, v in attr.items() if k != 15}
+        keys = set(rawkeys)
+        if 14 in attr and tuple(attr[14]['afi_safi']) == (1, 128):
+            keys |= {keystr(r) for r in attr[14]['nlri']}
+        kept = [r for r in attr[15]['withdraw'] if keystr(r) in keys]
+        if len(kept) == len(attr[15]['withdraw']):
+            return False
+        a2 = dict(attr)
+        a2[15] = dict(attr[15], withdraw=kept)
         exp, n = mp_expect(before, 'mpls_vpn', a2)
         return got == exp and dv == n
 
@@ -585,6 +742,33 @@ def gen_traces(ctx):
                 if t[-1] == len(al) - 1 and n > 1 and ctx.tier == 'quick' and t[0] == len(al) - 1:
                     continue                   # drop ... drop: covered by shorter traces
                 out.append((kind, [al[i] for i in t]))
+    # -- both kinds of session end: the peer drops it / yabgp closes it (4 ways), tables non-empty
+    for al, side in ((ra, 'recv'), (sa, 'send')):
+        letters = [x for x in al if x[0] != 'drop']
+        for x in letters:
+            for d in DROPS:
+                out.append((side + '-then-drop', [x, d]))
+        for d in (DROPS if ctx.thorough else [('close', 'hdr')]):
+            for x in letters:
+                for y in letters:
+                    out.append((side + '-drop-between', [x, d, y]))
+                    if ctx.thorough:
+                        out.append((side + '-pair-then-drop', [x, y, d]))
+    out.append(('both-directions-then-drop', [ra[0], sa[1], ra[7], sa[7], ra[10], sa[10], ('close', 'hdr')]))
+    for d in DROPS:
+        out.append(('both-directions-then-drop', [ra[0], sa[0], d, ra[2], sa[2], d]))
+    # -- one UPDATE with every combination of {nlri, withdraw, 14, 15}
+    for side in ('recv', 'send'):
+        cl, su, fu = combo_letters(side), combo_setup(side), combo_followups(side)
+        for c in cl:
+            out.append((side + '-combined', [c]))
+            out.append((side + '-combined-after-setup', su + [c]))
+            for w in fu:
+                out.append((side + '-combined-then-withdraw', su + [c, w]))
+        if ctx.thorough:
+            for c in cl:
+                for c2 in cl:
+                    out.append((side + '-combined-pairs', su + [c, c2]))
     rb, sb = recv_alphabet(True), send_alphabet(True)
     if ctx.thorough:
         ipv4 = [e for e in ra if e[0] == 'drop' or not (set(e[1]['attr']) & {14, 15})]
@@ -605,6 +789,8 @@ def gen_traces(ctx):
 def describe(e):
     if e[0] == 'drop':
         return ['drop']
+    if e[0] == 'close':
+        return ['close', e[1]]
     m = e[1]
     a = {str(k): v for k, v in m['attr'].items()}
     return [e[0], json.loads(json.dumps({'attr': a, 'nlri': m['nlri'], 'withdraw': m['withdraw']}))]
@@ -617,6 +803,8 @@ def run(ctx):
     n_events = 0
     flask_runs = 0
     kinds = {}
+    n_both = sum(1 for _k, evs in traces for e in evs
+                 if e[0] in ('recv', 'send') and 14 in e[1]['attr'] and 15 in e[1]['attr'])
     for kind, evs in traces:
         kinds[kind] = kinds.get(kind, 0) + 1
         coq, states, v = runner.run(evs, 'direct')
@@ -665,18 +853,33 @@ def run(ctx):
                 c = cases[k * per + i]
                 mism.append({'what': 'model and implementation differ on a %s trace of %d events'
                              % (c[0], len(c[1])), 'input': [describe(e) for e in c[1]]})
+    def first_of(kind):
+        for c in cases:
+            if c[0] == kind and len(c[1]) > 1 and c[1][-1][0] != 'drop':
+                return c
+        return None
     nontrivial = sum(1 for c in cases if any(s[0] or s[1] or any(s[2]) or any(s[3]) for s in c[3]))
     return {
         'evaluations': n_events, 'distinct': nontrivial,
         'rule': 'traces of received UPDATEs (octets built by Update.construct, fed to dataReceived), REST/protocol '
-                'sends and session drops over a pool of 4 prefixes x 3 attribute sets, 3 flowspec rules, 3 VPNv4 '
-                'routes, 2 SR policies; exhaustive over a 13-letter alphabet per direction up to length 3 '
-                '(thorough: IPv4 letters to length 4, all pairs of a 24-letter alphabet), plus seeded random mixed '
-                'traces up to 40 events; every event is compared (whole state); a trace is non-trivial when some '
-                'table or counter is non-empty/non-zero at some point; evaluations = events',
-        'samples': [[describe(e) for e in c[1]] for c in (cases[20], cases[500], cases[-1])],
+                'sends and session ends over a pool of 4 prefixes x 3 attribute sets, 3 flowspec rules, 4 VPNv4 '
+                'routes, 2 SR policies; exhaustive over a 13-letter alphabet per direction up to length 3; '
+                'every letter followed by each of the 5 kinds of session end (peer drops; yabgp closes: header '
+                'error, hold timer, manual stop, NOTIFICATION received) and letter/local close/letter; one UPDATE '
+                'with each of the 16 subsets of {IPv4 nlri, withdraw, attribute 14, attribute 15} x the families '
+                'of 14 and 15 (same and different; 48 received / 80 sent letters) on empty tables, after a '
+                'set-up that fills every table, and followed by a withdrawal of what it should have removed '
+                '(thorough: IPv4 letters to length 4, all pairs of a 35-letter (received) and a 34-letter (sent) alphabet, all pairs of combined '
+                'letters, every kind of end between/after all letter pairs), plus seeded random mixed traces '
+                'up to 40 events; every event is compared (whole state incl. the disconnected flag); a trace is '
+                'non-trivial when some table or counter is non-empty/non-zero at some point; evaluations = events',
+        'samples': [[describe(e) for e in c[1]] for c in
+                    (cases[20], cases[500], first_of('recv-then-drop'), first_of('send-combined-then-withdraw'),
+                     cases[-1]) if c],
         'mismatches': mism, 'violations': viol,
         'extra': {'traces': len(cases), 'events': n_events, 'trace_kinds': kinds, 'rest_traces': flask_runs,
+                  'session_end_kinds': ['drop'] + ['close/' + k for k in CLOSE_KINDS],
+                  'updates_with_14_and_15': n_both,
                   'pool': {'prefixes': len(PREFIXES), 'attribute_sets': len(ATTRS), 'flowspec_rules': len(FS_RULES),
                            'vpnv4_routes': len(VPN_ROUTES), 'sr_policies': len(SR_RULES)}},
     }
@@ -693,6 +896,8 @@ def replay(ctx, obj):
     for e in inp:
         if e[0] == 'drop':
             evs.append(('drop',))
+        elif e[0] == 'close':
+            evs.append(('close', e[1]))
         else:
             m = e[1]
 
